@@ -136,6 +136,14 @@ pub enum N {
     WaitTrap {
         id: u32,
     },
+    /// `eval 'BODY'` or `command eval 'BODY'`: the commands run in the current
+    /// shell, inside a built-in (`command` is not marked as handling signals
+    /// itself: in an interactive shell the children are awaited next to the
+    /// helper that records caught signals)
+    Ev {
+        body: Vec<N>,
+        cmd: bool,
+    },
     /// `kill -s USR1 $$`: a signal for which the main shell has a trap with an
     /// invisible action (`trap : USR1`). Only generated in programs without
     /// asynchronous jobs, so that the sender is always a foreground child (or
@@ -411,6 +419,11 @@ impl Gen<'_> {
                     out.push(N::Call(f));
                     out.push(N::Qm);
                 }
+                _ if depth < 2 && self.rng.below(4) == 0 => {
+                    let body = self.block(depth + 1, 3, allow_bg);
+                    out.push(N::Ev { body, cmd: self.rng.below(3) != 0 });
+                    out.push(N::Qm);
+                }
                 _ => {
                     let w = self.word();
                     out.push(N::Echo(w));
@@ -620,6 +633,7 @@ fn render(n: &N, out: &mut String, _sep: &str) {
                 inline(body)
             ));
         }
+        N::Ev { body, cmd } => out.push_str(&format!("{}eval '{}'", if *cmd { "command " } else { "" }, inline(body).replace('\'', "'\\''"))),
         N::Def { f, body } => out.push_str(&format!("f{f}() {{ {}}}", inline(body))),
         N::Nap(ms) => out.push_str(&format!("nap {ms}")),
         N::SelfKill { kind, sig, word } => {
@@ -866,6 +880,7 @@ fn eval(n: &N, cx: &mut Ctx) {
                 eval_block(body, cx);
             }
         }
+        N::Ev { body, .. } => eval_block(body, cx),
         N::Def { f, body } => {
             cx.funcs.insert(*f, body.clone());
             cx.status = 0;
@@ -1000,7 +1015,7 @@ fn repair(nodes: &mut Vec<N>, funcs: &mut BTreeSet<u32>) {
                 }
                 true
             }
-            N::Sub { body, .. } | N::Cs { body, .. } | N::For { body, .. } => {
+            N::Sub { body, .. } | N::Cs { body, .. } | N::For { body, .. } | N::Ev { body, .. } => {
                 repair(body, &mut funcs.clone());
                 if body.is_empty() {
                     body.push(N::Echo("x".into()));
@@ -1137,6 +1152,10 @@ fn variants(nodes: &[N]) -> Vec<Vec<N>> {
             N::Def { f, body } => variants(body)
                 .into_iter()
                 .map(|b| N::Def { f: *f, body: b })
+                .collect(),
+            N::Ev { body, cmd } => variants(body)
+                .into_iter()
+                .map(|b| N::Ev { body: b, cmd: *cmd })
                 .collect(),
             _ => Vec::new(),
         };
